@@ -12,7 +12,11 @@ package c07
 
 import (
 	"fmt"
+	"net"
+	"runtime"
 	"sort"
+	"strconv"
+	"strings"
 	"time"
 
 	"pgregory.net/rapid"
@@ -54,6 +58,9 @@ type RtspCase struct {
 	ASsrc      uint32  `json:"assrc"`
 	MaxPayload int     `json:"max_payload"`
 	Pert       Perturb `json:"pert"`
+	// Udp: SETUP with client_port, RTP as loopback datagrams to the ports lal allocates (read by lal's own
+	// per-track UDP goroutines) instead of interleaved frames on the RTSP connection.
+	Udp bool `json:"udp,omitempty"`
 }
 
 type wirePkt struct {
@@ -333,6 +340,104 @@ func (c *RtspCase) sdpPS() int {
 	return 0
 }
 
+// udpWindow is the number of datagrams sent before the sender waits for lal's read-byte counter to cover them:
+// 24 datagrams of at most 1412 bytes stay far below the loopback socket's receive buffer, so none is dropped and
+// the arrival order is the generated one.
+const udpWindow = 24
+
+// ackedSender paces datagrams (or any other unacknowledged transport) against StatGroup().StatPub.ReadBytesSum,
+// which lal increments for every packet before it parses it, in the goroutine that reads the socket.
+type ackedSender struct {
+	s       *inproc.Server
+	total   uint64
+	pending int
+}
+
+func (a *ackedSender) sent(n int) {
+	a.total += uint64(n)
+	a.pending++
+	if a.pending >= udpWindow {
+		a.wait()
+	}
+}
+
+// wait blocks until lal has read everything sent so far.
+func (a *ackedSender) wait() {
+	a.pending = 0
+	deadline := time.Now().Add(20 * time.Second)
+	for i := 0; ; i++ {
+		st := a.s.SM.StatGroup(streamName)
+		if st != nil && st.StatPub.ReadBytesSum >= a.total {
+			return
+		}
+		if time.Now().After(deadline) {
+			lalclient.Harness("c07: lal read %v of %d bytes sent over the socket within 20 s (datagram lost?)", st, a.total)
+		}
+		if i < 200 {
+			runtime.Gosched()
+		} else {
+			time.Sleep(100 * time.Microsecond)
+		}
+	}
+}
+
+type udpTrack struct {
+	sock *net.UDPConn
+	dst  *net.UDPAddr
+}
+
+// publishUDP is rtspref.Client.Publish with UDP transport: OPTIONS, ANNOUNCE, one SETUP per track announcing a
+// client port pair and learning lal's server port pair, RECORD.
+func publishUDP(cl *rtspref.Client, uri string, tracks []rtspref.Track) ([]udpTrack, *rtspref.Response, error) {
+	do := func(method, u string, h map[string]string, body []byte) (*rtspref.Response, error) {
+		r, err := cl.Do(method, u, h, body)
+		if err != nil {
+			return nil, err
+		}
+		if r.Status != 200 {
+			return r, fmt.Errorf("%s: %d %s", method, r.Status, r.Reason)
+		}
+		return r, nil
+	}
+	if r, err := do("OPTIONS", uri, nil, nil); err != nil {
+		return nil, r, err
+	}
+	if r, err := do("ANNOUNCE", uri, map[string]string{"Content-Type": "application/sdp"}, rtspref.BuildSdp(tracks)); err != nil {
+		return nil, r, err
+	}
+	var out []udpTrack
+	for _, t := range tracks {
+		sock, err := net.ListenUDP("udp4", &net.UDPAddr{IP: net.IPv4(127, 0, 0, 1)})
+		if err != nil {
+			lalclient.Harness("c07: udp socket: %v", err)
+		}
+		out = append(out, udpTrack{sock: sock})
+		port := sock.LocalAddr().(*net.UDPAddr).Port
+		r, err := do("SETUP", uri+"/"+t.Control, map[string]string{"Transport": fmt.Sprintf("RTP/AVP/UDP;unicast;client_port=%d-%d;mode=record", port, port+1)}, nil)
+		if err != nil {
+			return out, r, err
+		}
+		sp := 0
+		for _, f := range strings.Split(r.Headers["transport"], ";") {
+			if strings.HasPrefix(strings.TrimSpace(f), "server_port=") {
+				v := strings.TrimPrefix(strings.TrimSpace(f), "server_port=")
+				if i := strings.IndexByte(v, '-'); i >= 0 {
+					v = v[:i]
+				}
+				sp, _ = strconv.Atoi(v)
+			}
+		}
+		if sp <= 0 || sp > 65535 {
+			return out, r, fmt.Errorf("SETUP response without usable server_port: Transport: %q", r.Headers["transport"])
+		}
+		out[len(out)-1].dst = &net.UDPAddr{IP: net.IPv4(127, 0, 0, 1), Port: sp}
+	}
+	if r, err := do("RECORD", uri, map[string]string{"Range": "npt=0.000-"}, nil); err != nil {
+		return out, r, err
+	}
+	return out, nil, nil
+}
+
 func runRtspOnce(c *RtspCase, pk []wirePkt) ([]observed, *pbt.Violation) {
 	s := inproc.New(inproc.Config{DisableTs: true})
 	defer s.Close()
@@ -345,7 +450,20 @@ func runRtspOnce(c *RtspCase, pk []wirePkt) ([]observed, *pbt.Violation) {
 	cl := rtspref.NewClient(conn)
 	tracks := c.tracks()
 	uri := "rtsp://127.0.0.1:5544/live/" + streamName
-	if r, err := cl.Publish(uri, tracks); err != nil {
+	var r *rtspref.Response
+	var err error
+	var udp []udpTrack
+	if c.Udp {
+		udp, r, err = publishUDP(cl, uri, tracks)
+		defer func() {
+			for _, u := range udp {
+				_ = u.sock.Close()
+			}
+		}()
+	} else {
+		r, err = cl.Publish(uri, tracks)
+	}
+	if err != nil {
 		if v := s.PanicViolation(); v != nil {
 			return nil, v
 		}
@@ -387,6 +505,52 @@ func runRtspOnce(c *RtspCase, pk []wirePkt) ([]observed, *pbt.Violation) {
 			return pbt.V("rtsp/publisher-disconnected", "lal ended the publishing session while RTP was being delivered")
 		}
 		return nil
+	}
+	if c.Udp {
+		// track index in SDP order = interleaved channel / 2
+		acks := &ackedSender{s: s}
+		var last [2][]byte
+		send := func(track int, raw []byte) {
+			ch := chV
+			if track == 1 {
+				ch = chA
+			}
+			u := udp[ch/2]
+			if _, err := u.sock.WriteToUDP(raw, u.dst); err != nil {
+				lalclient.Harness("c07: udp send: %v", err)
+			}
+			acks.sent(len(raw))
+		}
+		// barrier: lal handles each track in a goroutine of its own, packet by packet; a duplicate of the track's last
+		// packet (discarded by the reorder list either as stale or as already present) that has been counted proves
+		// that everything sent before it on that track has been processed completely
+		barrier := func() {
+			acks.wait()
+			for t := 0; t < 2; t++ {
+				if last[t] != nil {
+					send(t, last[t])
+				}
+			}
+			acks.wait()
+		}
+		for i, p := range pk {
+			send(p.track, p.raw)
+			last[p.track] = p.raw
+			if i%syncEvery == syncEvery-1 {
+				barrier()
+				if v := x.sync(); v != nil {
+					return nil, v
+				}
+			}
+		}
+		barrier()
+		if conn.PeerGone() {
+			if v := s.PanicViolation(); v != nil {
+				return nil, v
+			}
+			return nil, pbt.V("rtsp/publisher-disconnected", "lal ended the publishing session while RTP was being delivered")
+		}
+		return x.finish()
 	}
 	for i, p := range pk {
 		ch := chV
@@ -462,7 +626,11 @@ func genPerturb(t *rapid.T) Perturb {
 
 func genRtsp(t *rapid.T) RtspCase {
 	var c RtspCase
+	c.Udp = rapid.IntRange(0, 9).Draw(t, "udp") == 6
 	c.MaxPayload = rapid.SampledFrom([]int{1400, 1400, 1200, 200, 100, 60, 30, 1460, 8000}).Draw(t, "maxPayload")
+	if c.Udp && c.MaxPayload > 1400 {
+		c.MaxPayload = 1400 // lal reads datagrams into 1500-byte buffers (rtprtcp.MaxRtpRtcpPacketSize), the usual MTU
+	}
 	o := streamOpts{kind: "rtsp", sizeEdges: []int{c.MaxPayload, c.MaxPayload - 3, c.MaxPayload / 2, 2 * c.MaxPayload}, maxNal: 20000}
 	if pbt.Thorough() {
 		o.maxNal = 300000
@@ -494,6 +662,14 @@ func genRtsp(t *rapid.T) RtspCase {
 		}
 	}
 	c.S = genStream(t, o)
+	if c.Udp && c.S.Audio != "aac" {
+		// G.711 / Opus travel one frame per packet: over UDP a frame has to fit the datagram lal reads (1500 bytes)
+		for i := range c.S.Units {
+			if u := &c.S.Units[i]; !u.V && u.ALen > c.MaxPayload {
+				u.ALen = c.MaxPayload
+			}
+		}
+	}
 	c.Sprop = rapid.IntRange(0, 3).Draw(t, "sprop") != 0
 	c.AudioFirst = rapid.IntRange(0, 3).Draw(t, "audioFirst") == 0
 	c.VPT = rapid.IntRange(96, 127).Draw(t, "vpt")
@@ -517,6 +693,11 @@ func genRtsp(t *rapid.T) RtspCase {
 
 func classifyRtsp(c RtspCase) (bool, []string) {
 	l := append([]string{"kind:rtsp"}, streamLabels(&c.S)...)
+	if c.Udp {
+		l = append(l, "transport:udp")
+	} else {
+		l = append(l, "transport:interleaved")
+	}
 	pk := c.packets()
 	modes := map[string]bool{}
 	nv, na := 0, 0
@@ -567,7 +748,11 @@ func classifyRtsp(c RtspCase) (bool, []string) {
 	}
 	for _, x := range l {
 		if len(x) > 5 && x[:5] == "pert:" {
-			l = append(l, combo("rtsp", &c.S, x[5:]))
+			if c.Udp {
+				l = append(l, combo("rtsp-udp", &c.S, x[5:]))
+			} else {
+				l = append(l, combo("rtsp", &c.S, x[5:]))
+			}
 			break
 		}
 	}
